@@ -8,7 +8,8 @@
     join        a caller finds call object i registered (fast path, or the double check inside Compute) and will wait on it
     create      a caller finds no registered call: registers a fresh object and becomes its leader (shouldLoad = true)
     unregister  the leader of i has left the loader (value, error, not-found or panic — the deferred afterFinish runs in every
-                case) and executes deleteCall: compare-and-delete of i
+                case) and executes deleteCall: compare-and-delete of i; its result is written into the cache in the same
+                critical section if and only if the compare succeeded (afterDeleteCall: isCorrectCall)
     cancel      the leader of i releases the waiters of i
     kill        a Set / Invalidate / eviction runs group.delete: whatever is registered is removed (the object is "orphaned")
     resume      a waiter of a released object returns
@@ -26,6 +27,7 @@ structure St where
   orphaned : Nat → Bool := fun _ => false
   waiting : Nat → Nat := fun _ => 0
   next : Nat := 0                     -- next unused object id
+  installed : Nat → Bool := fun _ => false   -- the result of call object i was written into the cache
 
 def upd {α : Type} (f : Nat → α) (i : Nat) (v : α) : Nat → α := fun j => if j = i then v else f j
 
@@ -38,7 +40,8 @@ inductive Step : St → St → Prop
   | create (s : St) : s.cur = none →
       Step s { s with cur := some s.next, phase := upd s.phase s.next .loading, next := s.next + 1 }
   | unregister (s : St) (i : Nat) : s.phase i = .loading →
-      Step s { s with cur := if s.cur = some i then none else s.cur, phase := upd s.phase i .finishing }
+      Step s { s with cur := if s.cur = some i then none else s.cur, phase := upd s.phase i .finishing,
+                      installed := if s.cur = some i then upd s.installed i true else s.installed }
   | cancel (s : St) (i : Nat) : s.phase i = .finishing →
       Step s { s with phase := upd s.phase i .done }
   | kill (s : St) :
@@ -167,5 +170,83 @@ theorem reach_inv {s : St} (h : Reach s) : Inv s := by
   induction h with
   | init => exact inv_init
   | step _ hs ih => exact inv_step ih hs
+
+/-! ### which loads write their result (C09) -/
+
+structure Inv2 (s : St) : Prop where
+  base : Inv s
+  /-- a call whose record a write / invalidation / eviction removed never writes its result, and only finished loads do -/
+  inst : ∀ i, s.installed i = true → s.orphaned i = false ∧ s.phase i ≠ .loading ∧ s.phase i ≠ .fresh
+  /-- the registered call has not been removed by a writer -/
+  regno : ∀ i, s.cur = some i → s.orphaned i = false
+
+theorem inv2_init : Inv2 {} := ⟨inv_init, fun _ h => (by cases h), fun _ h => (by cases h)⟩
+
+theorem inv2_step {s s' : St} (hi : Inv2 s) (hs : Step s s') : Inv2 s' := by
+  refine ⟨inv_step hi.base hs, ?_, ?_⟩
+  · cases hs with
+    | join i hc => exact hi.inst
+    | create hc =>
+      intro j hj
+      have hfr := hi.base.fresh s.next (Nat.le_refl _)
+      have hne : j ≠ s.next := fun e => by
+        have := (hi.inst j hj).2.2; rw [e, hfr.1] at this; exact this rfl
+      have := hi.inst j hj
+      exact ⟨this.1, by simp only [upd_other _ _ _ _ hne]; exact this.2.1, by simp only [upd_other _ _ _ _ hne]; exact this.2.2⟩
+    | unregister i hp =>
+      intro j hj
+      simp only at hj ⊢
+      by_cases e : j = i
+      · subst e
+        by_cases hc : s.cur = some j
+        · exact ⟨hi.regno j hc, by simp, by simp⟩
+        · simp only [hc, ↓reduceIte] at hj
+          have := (hi.inst j hj).2.1
+          exact absurd hp this
+      · have hj' : s.installed j = true := by
+          by_cases hc : s.cur = some i
+          · simp only [hc, ↓reduceIte, upd_other _ _ _ _ e] at hj; exact hj
+          · simp only [hc, ↓reduceIte] at hj; exact hj
+        have := hi.inst j hj'
+        exact ⟨this.1, by simp only [upd_other _ _ _ _ e]; exact this.2.1, by simp only [upd_other _ _ _ _ e]; exact this.2.2⟩
+    | cancel i hp =>
+      intro j hj
+      have := hi.inst j hj
+      by_cases e : j = i
+      · subst e; exact ⟨this.1, by simp, by simp⟩
+      · exact ⟨this.1, by simp only [upd_other _ _ _ _ e]; exact this.2.1, by simp only [upd_other _ _ _ _ e]; exact this.2.2⟩
+    | kill =>
+      intro j hj
+      have := hi.inst j hj
+      refine ⟨?_, this.2.1, this.2.2⟩
+      cases hc : s.cur with
+      | none => exact this.1
+      | some i =>
+        have hne : j ≠ i := fun e => by
+          have hl := (hi.base.reg i hc).1
+          rw [e] at this; exact this.2.1 hl
+        simp only [upd_other _ _ _ _ hne]; exact this.1
+    | resume i hp hw => exact hi.inst
+  · cases hs with
+    | join i hc => exact hi.regno
+    | create hc =>
+      intro j hj
+      simp only [Option.some.injEq] at hj
+      subst hj
+      exact (hi.base.fresh s.next (Nat.le_refl _)).2.2
+    | unregister i hp =>
+      intro j hj
+      simp only at hj
+      by_cases hc : s.cur = some i
+      · simp only [hc, ↓reduceIte] at hj; cases hj
+      · simp only [hc, ↓reduceIte] at hj; exact hi.regno j hj
+    | cancel i hp => exact hi.regno
+    | kill => intro j hj; cases hj
+    | resume i hp hw => exact hi.regno
+
+theorem reach_inv2 {s : St} (h : Reach s) : Inv2 s := by
+  induction h with
+  | init => exact inv2_init
+  | step _ hs ih => exact inv2_step ih hs
 
 end OtterVerif.Conc.Flight
